@@ -545,8 +545,9 @@ pub fn eval_io_case(t: &[&str]) -> Option<String> {
         "OD" => {
             let k: usize = t[1].parse().unwrap();
             let (signs, rest) = parse_signs(k, &t[2..]);
+            // grammar: OD k signs | prior... | input nsteps wsched...
+            let rest = if rest.first() == Some(&"|") { &rest[1..] } else { rest };
             let (prior, rest) = split_at("|", rest);
-            let (prior, rest) = if prior.is_empty() && !rest.is_empty() && rest.contains(&"|") { split_at("|", rest) } else { (prior, rest) };
             let vbus = Rc::new(RefCell::new(VirtualSignBus::new(signs)));
             for m in prior {
                 let msg = msg_of_str(m);
